@@ -31,9 +31,9 @@ from harness.stubs import Handler  # noqa: E402
 
 
 def real_time(t, rdiv):
-    if t[0] == 1000:
+    if t[0] == 1000000:
         return Time(INF, INF)
-    if t[0] == -1000:
+    if t[0] == -1000000:
         return Time(-INF, -INF)
     return Time(float(t[0]), t[1] / rdiv)
 
@@ -81,7 +81,7 @@ def replay(beh, max_counter, rdiv, nhandlers, tolerant):
                 mod = pickle if pick % 2 else dill
                 heap, handlers, lst = mod.loads(mod.dumps((heap, handlers, lst)))
             elif name == "get":
-                finite = [v for v in live.values() if v is not None and v[0] != 1000]
+                finite = [v for v in live.values() if v is not None and v[0] != 1000000]
                 try:
                     ret = heap.get_succeeding_event()
                     got = ("none", ret.ident)
